@@ -54,7 +54,17 @@ def make_ds(n, with_pre=True, sliced=False):
     list(parent.batch(batch_size=2))
     list(parent.padded_batch(batch_size=3))
     return parent[2:2 + n], keep, with_pre
-  if with_pre:
+  if with_pre == 'inplace':
+    # preprocessing functions that work on the dict they are given (legal: the preprocessor hands them a copy of the dict)
+    def f1(e):
+      e['z'] = e['x'] * 2 + 7
+      return e
+
+    def f2(e):
+      e['u'] = e['z'] - 1
+      return e
+    pre = cds.BatchPreprocessor([f1, f2])
+  elif with_pre:
     # a chain of per-example preprocessors that does NOT map 0 to 0 (padding is added after preprocessing: padded rows are 0)
     pre = cds.BatchPreprocessor([lambda e: {**e, 'z': e['x'] * 2 + 7}, lambda e: {**e, 'u': e['z'] - 1}])
   else:
@@ -123,6 +133,8 @@ def sweep_batch(tier, seed):
       yield dict(N=n, batch_size=b, drop_remainder=False, pre=True, peek=peek)
   for n, b in ((3, 2), (0, 2), (5, 5), (4, 3)):
     yield dict(N=n, batch_size=b, drop_remainder=False, pre=True, sliced=True)
+  for n, b in ((3, 2), (3, 3), (4, 9), (1, 1)):
+    yield dict(N=n, batch_size=b, drop_remainder=False, pre='inplace')
 
 
 def check_padded(inp):
@@ -149,6 +161,8 @@ def check_padded(inp):
   for kk, v in keep.items():
     if not np.array_equal(ds.raw_examples[kk], v):
       return 'dataset mutated'
+  if set(ds.raw_examples) != set(keep):
+    return f'iterating changed the features of the dataset itself: {sorted(ds.raw_examples)} (was {sorted(keep)})'
   M = cds.EXAMPLE_MASK_KEY
   real = {kk: [] for kk in exp}
   for i, batch in enumerate(first):
@@ -194,6 +208,8 @@ def sweep_padded(tier, seed):
       yield dict(N=n, batch_size=b, num_batch_size_buckets=2, pre=True, peek=peek)
   for n, b in ((3, 2), (0, 2), (5, 5), (4, 3)):
     yield dict(N=n, batch_size=b, num_batch_size_buckets=2, pre=True, sliced=True)
+  for n, b in ((3, 2), (3, 3), (4, 9), (1, 1)):
+    yield dict(N=n, batch_size=b, num_batch_size_buckets=2, pre='inplace')
 
 
 def check_helpers(inp):
